@@ -78,6 +78,8 @@ THEOREMS = {
         "Shroud.Helpers.chelpers_gather_correct",
         "Shroud.Helpers.fhelpers_gather_correct",
         "Shroud.Helpers.luahelpers_gather_correct",
+        "Shroud.Helpers.utility_covers_every_module",
+        "Shroud.Helpers.utility_ok_on_chelpers",
         "Shroud.Helpers.placeholders_provided",
         "Shroud.Helpers.write_headers_if_balanced",
         "Shroud.Helpers.write_headers_extern_neutral",
@@ -513,9 +515,11 @@ def fmodule_tie(ctx, r, ok, thorough):
         got = []
         final = {}
         for ln in use:
-            mm = re.match(r"use (\S+?)(?:, only : (.*))?$", ln)
-            final[mm.group(1)] = None if mm.group(2) is None else mm.group(2).split(", ")
-            got.append("%d=%s" % (nid[mm.group(1)], "*" if mm.group(2) is None else ",".join(str(nid[x]) for x in mm.group(2).split(", "))))
+            # the only-list may carry break hints for write_continue (", \t") since 25ed63a: split on the comma, drop white space
+            mm = re.match(r"use (\S+?)(?:,\s*only\s*:\s*(.*))?$", ln, re.S)
+            only = None if mm.group(2) is None else [x for x in re.split(r"\s*,\s*", mm.group(2).strip()) if x]
+            final[mm.group(1)] = only
+            got.append("%d=%s" % (nid[mm.group(1)], "*" if only is None else ",".join(str(nid[x]) for x in only)))
         real = ("|".join(got) or "~") + " # " + (",".join(str(i) for i in sorted(nid[x] for x in imp2)) or "~")
         ctx.count(1)
         if len(modules) > 1:
@@ -543,6 +547,56 @@ def fmodule_tie(ctx, r, ok, thorough):
         ctx.sample({"fmodule": {"calls": seqs[-1], "use": reals[-1]}})
     if bad:
         ctx.tie_broken("Wrapf.update_f_module/update_f_module_line/sort_module_info vs Model.FModule", bad[:4])
+
+
+# ---------------------------------------------------------------------------------------------- shared helper tie
+def shared_tie(ctx, r, ok, thorough):
+    """every module's C helper set reaches the set Wrapc.write_impl_utility gathers (model: sharedHelpers = union)"""
+    from tools import helpers_tie
+    from tools.gen import c05gen
+    cases = []
+    for name in ("tutorial", "namespace", "example", "strings", "vectors", "classes", "scope", "templates"):
+        for n, y, extra in shroudrun.CORPUS:
+            if n == name:
+                o, lang, wv = shroudrun.parse_cmdline(extra)
+                cases.append(dict(tag=name, yaml=shroudrun.corpus_yaml(y), options=["debug_testsuite=true"] + o))
+    for i in range(16 if thorough else 6):
+        lib = c05gen.gen(r, "namespace_helpers")
+        cases.append(dict(tag="nsgen%d" % i, yaml_text=lib["yaml_text"], options=["wrap_python=false", "wrap_lua=false"]))
+    chunks = [cases[i::4] for i in range(4)]
+    with pool() as ex:
+        results = [x for rs in ex.map(helpers_tie.shared_worker, chunks) for x in rs]
+    by_tag = {c["tag"]: c for c in cases}
+    lines, reals, keep = [], [], []
+    for res in results:
+        ctx.count(1)
+        c = by_tag[res["tag"]]
+        rp = {"config": res["tag"], "yaml": c.get("yaml_text") or c.get("yaml"), "options": c["options"], "modules": res["modules"],
+              "shared_at_write_impl_utility": res["shared"]}
+        if res["exc"] or res["shared"] is None:
+            continue
+        allh = sorted(set(h for _m, hs in res["modules"] for h in hs))
+        missing = [h for h in allh if h not in res["shared"]]
+        if missing:
+            ctx.fail("helpers:module-helper-not-shared:%s" % missing[0],
+                     "C helper %s is requested by a module of %s but is not in the shared set when the utility file is written: its "
+                     "cwrap_impl source never reaches util<lib> (link: undefined symbol)" % (missing[0], res["tag"]), rp)
+        names = sorted(set(allh) | set(res["shared"]))
+        nid = {n: i for i, n in enumerate(names)}
+        lines.append("shared " + "|".join(",".join(str(nid[h]) for h in hs) or "~" for _m, hs in res["modules"]) if res["modules"] else "shared ~")
+        reals.append(",".join(str(nid[h]) for h in res["shared"]) or "~")
+        keep.append(rp)
+        if len([1 for _m, hs in res["modules"] if hs]) >= 2:
+            ctx.nontrivial(("shared", res["tag"], tuple(res["shared"])))
+    drv = common.Driver("drv_helpers")
+    bad = []
+    if ok and drv.available() and lines:
+        for rp, real, mo in zip(keep, reals, drv.run(lines)):
+            if mo != real:
+                bad.append(dict(rp, model=mo, real=real))
+    ctx.note("shared_helper_tie", {"cases": len(lines), "disagreements": len(bad)})
+    if bad:
+        ctx.tie_broken("shared_helper (union of the modules' c_helper) vs Model.Helpers.sharedHelpers", bad[:3])
 
 
 # ---------------------------------------------------------------------------------------------- table oracles
@@ -733,7 +787,7 @@ def feature_specs(r, thorough):
             specs.append(dict(tag="fgen%d:%s+%s" % (n, feat, vn), config="fgen", yaml_text=lib["yaml_text"], yaml_name="flib.yaml",
                               options=["wrap_python=false", "wrap_lua=false"] + list(vopts), language=None, incdirs=[],
                               headers=hdrgen.headers_from_dict(lib["dict"]), defines=lib["defines"], gen=True,
-                              features=lib["features"], link=(thorough or n % 4 == 1), stub=hdrgen.stub_from_dict(lib["dict"])))
+                              features=lib["features"], link=(thorough or n % 4 == 1 or feat in ("namespace_helpers", "class_result")), stub=hdrgen.stub_from_dict(lib["dict"])))
     return specs, matrix
 
 
@@ -762,6 +816,7 @@ def write_baseline():
         base[spec["tag"]] = {"%s|%s" % (x["file"], x["tool"]): (x["status"] if x["status"] != "fail" else "fail:" + x["err"])
                              for x in res["results"]}
         base[spec["tag"]]["__shroud__"] = "ok"
+        base[spec["tag"]]["__files__"] = [f for f in res.get("files", []) if not f.endswith((".log", ".json"))]
         if res.get("link"):
             base[spec["tag"]]["__link__"] = res["link"]["status"] if res["link"]["status"] != "fail" else "fail:" + "; ".join(res["link"]["messages"][:3])
     json.dump({"repo_commit": os.popen("git -C %s rev-parse --short HEAD" % common.REPO).read().strip(), "verdicts": base},
@@ -838,6 +893,9 @@ def compile_oracle(ctx, r, thorough, data=None):
             ctx.fail("%s:shroud:%s:%s" % (spec["config"], etype, re.sub(r"\s+", " ", emsg)[:80]),
                      "Shroud failed on an admitted description (%s): %s" % (tag, res["exc"]), dict(rp, stdout=res["stdout"]))
             continue
+        for fmiss in [f for f in baseline.get(tag, {}).get("__files__", []) if f not in res.get("files", [])]:
+            ctx.fail("%s:file-no-longer-written:%s" % (spec["config"], fmiss),
+                     "%s: %s is in the committed baseline of written files but was not written" % (tag, fmiss), rp)
         if spec["config"] in EXCLUDE_COMPILE:
             excl[tag] = EXCLUDE_COMPILE[spec["config"]]
             continue
@@ -982,6 +1040,7 @@ def run(ctx):
     gather_tie(ctx, r, data, ok, thorough)
     header_tie(ctx, r, ok, thorough)
     fmodule_tie(ctx, r, ok, thorough)
+    shared_tie(ctx, r, ok, thorough)
     compile_oracle(ctx, r, thorough, data)
 
 
